@@ -3137,7 +3137,13 @@ public:
     {
         if(is_constant_evaluated())
         {
-            return string_length(data());
+            // the array is not necessarily null-terminated, stop at `size()`
+            std::size_t length{};
+            for(; (length != size()) && (data()[length] != '\0'); length++)
+            {
+            }
+
+            return length;
         }
         else
         {
